@@ -236,3 +236,23 @@ Example C09_float_two_inclusive_nonvacuous :
   f_le true 4602678819172646912 4621537642612260864 = true /\
   f_is_finite true (f_sub true 4621537642612260864 4602678819172646912) = true.
 Proof. vm_compute. auto. Qed.
+
+(* --- strings with case sanitizers: valid whenever no len_char_max is declared ----------------
+   (the recorded class str_case_sanitizer_with_len_char_max is exactly the complement: a case
+   mapping never shortens a string, never creates or removes white space, and commutes with trim) *)
+From NV Require Import Lemmas.ArbStrCaseLemmas Lemmas.CanonLemmas.
+Theorem C09_str_case_without_max :
+  forall (lib : fnlib), unicode_lib lib ->
+  forall (ft : features) (sd : sdecl) (d : decl) (vs : list validator) (bs : bytes),
+    macro_verdict ft sd = Accept d -> d_family d = FStr -> d_validation d = Some (RVStandard vs) ->
+    has_trait TrArbitrary (d_traits d) = true ->
+    forallb str_min_validator vs = true ->
+    bytes_ok bs = true ->
+    exists v, arb_str lib d bs = OOk v /\ spec_valid lib d v = true.
+Proof. intros lib Hl ft sd d vs bs. exact (macro_accepted_arb_str_min_valid lib ft sd d vs bs Hl). Qed.
+Print Assumptions C09_str_case_without_max.
+
+Theorem C09_case_mappings_never_shorten :
+  forall s, (List.length s <= List.length (UStr.u_lower s))%nat /\ (List.length s <= List.length (UStr.u_upper s))%nat.
+Proof. intro s. split; [apply u_lower_length_ge | apply u_upper_length_ge]. Qed.
+Print Assumptions C09_case_mappings_never_shorten.
